@@ -94,6 +94,7 @@ class Interp:
         self.locals = {}
         self.node_param = fn["params"][0]["did"]
         self.returned = False
+        self.counters = {}          # integer fields of the list itself (an element count kept next to the links): name -> net change
 
     # -- expressions ---------------------------------------------------------
     def addr(self, n):
@@ -191,6 +192,21 @@ class Interp:
             for d in n["decls"]:
                 if d.get("init") is not None:
                     self.locals[d["did"]] = self.val(d["init"])
+        elif k in ("UnaryOperator", "CompoundAssignOperator") and n.get("op") in ("++", "--", "+=", "-="):
+            a = self.addr(n["c"][0])
+            if a[0] != "field" or a[1] != "list":
+                raise Unclassifiable("arithmetic on " + astq.text(n["c"][0]))
+            step = 1
+            if k == "CompoundAssignOperator":
+                c = astq.affine(n["c"][1])
+                if c is None or set(c) - {1}:
+                    raise Unclassifiable("non-constant step on " + a[2])
+                step = c.get(1, 0)
+            self.counters[a[2]] = self.counters.get(a[2], 0) + (step if n["op"] in ("++", "+=") else -step)
+        elif k == "BinaryOperator" and n.get("op") == "=" and astq.strip(n["c"][0]).get("k") == "MemberExpr" and astq.strip(n["c"][0]).get("member") not in ("first", "prev_ptr", "next_ptr") \
+                and self.addr(n["c"][0])[:2] == ("field", "list"):
+            c = astq.affine(n["c"][1])
+            self.counters[self.addr(n["c"][0])[2]] = ("set", c.get(1, 0)) if c is not None and not (set(c) - {1}) else ("set", "?")
         elif k == "BinaryOperator" and n.get("op") == "=":
             v = self.val(n["c"][1])
             a = self.addr(n["c"][0])
@@ -225,6 +241,7 @@ def analyse(fn, cases):
         except Unclassifiable as e:
             out.append((case, None, str(e)))
             continue
+        case.counters = dict(it.counters)
         diffs = []
         for key, want in sorted(case.expect.items()):
             got = it.heap.get(key, "<unset>")
